@@ -45,14 +45,14 @@ DWEAK = {"OtherNC": "Inv_C17_DeviceExclusive", "SameType": "Inv_C17_DeviceExclus
          "Counters": "Inv_C17_Counters", "Template": "Inv_C17_DeviceExclusive",
          # the seed rule gatherAllocatedDevices has today (known finding F-C17-1..3): the model only holds with the corrected rule
          "Releasable": "Inv_C17_DeviceExclusive", "ReleasableShared": "Inv_C17_SharedCapacity"}
-DALL = 'NCs = {"N1", "N2"}  Kinds = {"net", "net2", "shm2", "shm3", "gpu", "tshm"}  Pres = {0, 1, 2, 3, 4, 5}  Slots = {0, 1, 2}'
+DALL = 'NCs = {"N1", "N2"}  Kinds = {"net", "net2", "shm1", "shm2", "shm3", "gpu", "tshm"}  Pres = {0, 1, 2, 3, 4, 5}  Slots = {0, 1, 2}'
 ALL = 'Layouts = {1,2,3}  Caps = {0,1,2}  PoolSets = {1,2,3,4,5}  Modes = {"strict", "fallback"}'
 
 SCOPE = {
     # mc: exhaustive closed-model scope; gen: scenario enumeration; replay: TLC scenarios replayed (None = all); explore: explorer scenarios
     "quick": dict(mc='NPods = 3  PodArchs = {1,3,4,6,9}  Layouts = {1,2}  Caps = {0,1,2}  PoolSets = {1,2,5}  Modes = {"strict", "fallback"}',
                   gen="NPods = 3  PodArchs = {1,2,3,4,5,6,7,8,9,10}  " + ALL, replay=1200, explore=1500,
-                  dmc="NClaims = 2  " + DALL, dgen="NClaims = 3  " + DALL, dreplay=None, dexplore=1500),   # all 1008 worlds x 5 variants
+                  dmc="NClaims = 2  " + DALL, dgen="NClaims = 3  " + DALL, dreplay=None, dexplore=1500),   # every world x 5 pod-size variants x 2 claim orders
     # (pool set 4 = a single pool is a sub-case of the others: left out of the exhaustive run, kept in the enumeration that is replayed;
     #  archetype 8 = two OR-terms relaxes into archetypes 3/4; measured: the full 59 400-scenario scope has ~3.0M states)
     "thorough": dict(mc='NPods = 3  PodArchs = {1,2,3,4,5,6,7,9,10}  Layouts = {1,2,3}  Caps = {0,1,2}  PoolSets = {1,2,3,5}  Modes = {"strict", "fallback"}',
@@ -182,8 +182,9 @@ def check(run):
     rng.shuffle(enum)
     scenarios = [rc.with_workers(s, (1, 2, 8)[i % 3]) for i, s in enumerate(enum)]
     scenarios += [rc.explore_resv(rng, "x-resv-%d-%d" % (run.seed, i)) for i in range(tier["explore"])]
-    #    DRA: every world x 5 pod-size variants
-    dscn = [dc.from_world(w, v, "tlc-dra-%d/v%d" % (i, v)) for i, w in enumerate(worlds) for v in sorted(dc.SIZES)]
+    #    DRA: every world x 5 pod-size variants x 2 claim-to-pod orders
+    dscn = [dc.from_world(w, v, "tlc-dra-%d/v%d%s" % (i, v, "r" if rev else ""), rev) for i, w in enumerate(worlds) for v in sorted(dc.SIZES)
+            for rev in (False, True)]
     total_dscn = len(dscn)
     if tier["dreplay"] and tier["dreplay"] < len(dscn):
         dscn, run.exhaustive = rng.sample(dscn, tier["dreplay"]), False
